@@ -90,9 +90,9 @@ CLAIMED = {
              "SDBSpecCommit.lean) leaves — same nonce, code hash, balance (an account go-ethereum deletes as empty is an empty record in "
              "Nibiru) and the same value in every slot; proof: journal.dirties is the per-address count of surviving entries through "
              "appends and Revert, dirtied addresses stay cached and are materialised in the reference, undirtied ones show the store "
-             "(four invariants carried over the nested body), then a per-address case analysis of the two commits; side conditions on "
-             "the final state: written-back balances are whole multiples of 10^12 wei, an account that ends empty without "
-             "self-destructing has no storage; lifted to ANY sequence of transactions by induction (C03_history_commits_match_reference_partial); "
+             "(four invariants carried over the nested body), then a per-address case analysis of the two commits; the persisted Nibiru balance is "
+             "the reference's wei balance in whole unibi (truncated); one side condition on the final state: an account that ends empty "
+             "without self-destructing has no storage; lifted to ANY sequence of transactions by induction (C03_history_commits_match_reference_partial); "
              "concrete transactions are evaluated by the kernel as witnesses; ApplyEvmMsg's EIP-3529 refund equals go-ethereum's for all inputs and never exceeds a fifth of the gas used. A "
              "cross-implementation oracle reports the first call on which Nibiru's and go-ethereum's real StateDBs answer differently.",
         note="The history theorem (C03_history_commits_match_reference_partial: any sequence of transactions) assumes that no account ends a "
